@@ -45,6 +45,9 @@ DEFAULT_PROFILE = {
     "p_forbid": 0.0,
     "root_final": True,
     "p_ondone_targetless": 0.0,
+    "assign_only": False,
+    "rich_guards": False,
+    "w_missing_guard": 0.6,
 }
 
 
@@ -190,6 +193,54 @@ class MachineGen:
             self.guards[name] = {"k": kind, "key": "n", "v": v}
         return name
 
+    def guard_rich(self, nodes=None, depth=0):
+        """A random guard formula (raw config) over named / parameterised / stateIn / raising / missing atoms."""
+        rng, p = self.rng, self.p
+        r = rng.random()
+        if depth < 3 and r < 0.45:
+            op = rng.choice(("and", "or", "not"))
+            n = 1 if op == "not" else rng.randint(2, 3)
+            kids = [self.guard_rich(nodes, depth + 1) for _ in range(n)]
+            spell = rng.choice(("children", "params.guards", "params.guard" if op == "not" else "children"))
+            if spell == "children":
+                return {"type": op, "children": kids}
+            if spell == "params.guards":
+                return {"type": op, "params": {"guards": kids}}
+            return {"type": op, "params": {"guard": kids[0]}}
+        k = wchoice(rng, {"ctx": 5, "param": 2, "statein": 3, "raise": 1.2, "missing": p.get("w_missing_guard", 0.6)})
+        if k == "ctx":
+            g = self.guard_ctx()
+            return g if rng.random() < 0.7 else {"type": g}
+        if k == "param":
+            want = rng.choice((True, False))
+            name = "g_param"
+            self.guards[name] = {"k": "param_truth", "key": "v"}
+            params = {"v": want}
+            if rng.random() < 0.4:
+                params = {"$fn": {"k": "const", "name": f"gparams_{int(want)}", "v": {"v": want}}}
+            return {"type": name, "params": params}
+        if k == "statein" and nodes:
+            tgt = rng.choice([n for n in nodes if n.kind != "history"])
+            sp = rng.random()
+            ident = "#" + tgt.id if sp < 0.34 else (tgt.id if sp < 0.67 else ".".join(tgt.id.split(".")[-2:]))
+            form = rng.random()
+            if form < 0.5:
+                return {"type": "stateIn", "params": {"state": ident}}
+            if form < 0.8:
+                return {"type": "stateIn", "params": {"value": ident}}
+            return {"type": "stateIn", "params": ident}
+        if k == "raise":
+            self.guards["g_raise"] = {"k": "raise"}
+            return "g_raise"
+        if k == "missing":
+            return rng.choice(("g_missing1", "g_missing2"))
+        return self.guard_ctx()
+
+    def any_guard(self, nodes=None):
+        if self.p.get("rich_guards"):
+            return self.guard_rich(nodes)
+        return self.guard_ctx()
+
     def new_tid(self):
         self.ntrans += 1
         return f"T{self.ntrans}"
@@ -199,7 +250,7 @@ class MachineGen:
         rng, p = self.rng, self.p
         out = []
         if rng.random() < p["p_assign"]:
-            if rng.random() < 0.5:
+            if rng.random() < 0.5 and not p.get("assign_only"):
                 out.append(self.act("inc_n", [["inc", "n", 1]]))
             else:
                 out.append({"type": "xstate.assign", "params": {"assignment": {"$fn": {"k": "assign", "name": "asg_n", "ops": [["inc", "n", 1]]}}}})
@@ -212,14 +263,31 @@ class MachineGen:
         if rng.random() < p["p_async_act"]:
             k = rng.randint(1, 3)
             out.append(self.act(f"yield_{k}", [["yield", k]], **{"async": True}))
-        if rng.random() < p["p_choose"]:
-            g = self.guard_ctx()
-            out.append({"type": "xstate.choose", "params": {"conditions": [
-                {"guard": g, "actions": [self.act("ch_a")]}, {"actions": [self.act("ch_b")]}]}})
+        if rng.random() < p["p_choose"] and (where == "trans" or not p.get("rich_guards")):
+            self.nchoose = getattr(self, "nchoose", 0) + 1
+            cid = self.nchoose
+            if p.get("rich_guards"):
+                conds = []
+                for bi in range(rng.randint(1, 3)):
+                    conds.append({("guard" if rng.random() < 0.7 else "cond"): self.guard_rich(getattr(self, "_nodes", None)),
+                                  "actions": [self.act(f"ch.{cid}.{bi}")]})
+                conds.append({"actions": [self.act(f"ch.{cid}.{len(conds)}")]})
+                out.append({"type": "xstate.choose", "params": {"conditions": conds}})
+            else:
+                g = self.guard_ctx()
+                out.append({"type": "xstate.choose", "params": {"conditions": [
+                    {"guard": g, "actions": [self.act("ch_a")]}, {"actions": [self.act("ch_b")]}]}})
         if rng.random() < p["p_pure"]:
             out.append({"type": "xstate.pure", "params": {"get": {"$fn": {"k": "pure", "name": "pure1", "ret": [self.act("pu_a"), self.act("pu_b")]}}}})
         if rng.random() < p["p_enq"]:
-            out.append({"type": "xstate.enqueueActions", "params": {"callback": {"$fn": {"k": "enq", "name": "enq1", "items": [self.act("eq_a")], "checks": [[self.guard_ctx(), self.act("eq_b")]]}}}})
+            self.nenq = getattr(self, "nenq", 0) + 1
+            eid = self.nenq
+            if p.get("rich_guards"):
+                if where == "trans":
+                    checks = [[self.guard_rich(getattr(self, "_nodes", None)), self.act(f"eq.{eid}.{ci}")] for ci in range(rng.randint(1, 3))]
+                    out.append({"type": "xstate.enqueueActions", "params": {"callback": {"$fn": {"k": "enq", "name": f"enq{eid}", "items": [], "checks": checks}}}})
+            else:
+                out.append({"type": "xstate.enqueueActions", "params": {"callback": {"$fn": {"k": "enq", "name": f"enq{eid}", "items": [self.act("eq_a")], "checks": [[self.guard_ctx(), self.act("eq_b")]]}}}})
         return out
 
     # -- targets ----------------------------------------------------------------
@@ -279,6 +347,7 @@ class MachineGen:
         rng, p = self.rng, self.p
         root = self.tree()
         nodes = list(root.walk())
+        self._nodes = nodes
         for n in nodes:
             c = n.cfg
             if n.kind == "history":
@@ -323,7 +392,7 @@ class MachineGen:
                 lst = []
                 for j in range(k):
                     tgt, re = self.pick_target(n, nodes, root)
-                    g = self.guard_ctx() if (rng.random() < p["p_guard"] or (k == 2 and j == 0)) else None
+                    g = self.any_guard(nodes) if (rng.random() < p["p_guard"] or (k == 2 and j == 0)) else None
                     lst.append(self.tcfg(n, tgt, re, g, extra=not ev.startswith("R")))
                 on[ev] = lst if (k > 1 or rng.random() < 0.5) else lst[0]
             if on:
@@ -335,7 +404,10 @@ class MachineGen:
                 tgt, re = self.pick_target(n, nodes, root)
                 tc = self.tcfg(n, tgt, re, None, extra=False)
                 tc["guard"] = gname
-                tc["actions"].append(self.act("inc_a", [["inc", "a", 1]]))
+                if p.get("assign_only"):
+                    tc["actions"].append({"type": "xstate.assign", "params": {"assignment": {"$fn": {"k": "assign", "name": "asg_a", "ops": [["inc", "a", 1]]}}}})
+                else:
+                    tc["actions"].append(self.act("inc_a", [["inc", "a", 1]]))
                 c["always"] = [tc]
             if n.kind in ("compound", "parallel") and n is not root and rng.random() < p["p_on_done"]:
                 has_final = any(x.kind == "final" for x in n.walk())
